@@ -15,10 +15,8 @@ Abort sites are explicit `Err` outcomes:
   unclosedChar     error_at "unclosed char literal"
   badHexEscape     error_at "invalid hex escape sequence"   (read_escaped_char, from a string or char literal)
   invalidToken     error_at "invalid token"
-  overrun          the C code walks past the terminating NUL (undefined behaviour):
-                   `//` comment without a newline before the NUL; a backslash directly before the NUL
-                   inside a string or character literal.  Cannot happen for buffers made by read_file
-                   (they end in "\n\0") — it can for the temporary buffers of the preprocessor.
+  (the code no longer walks past the terminating NUL: a `//` comment ends at the NUL, a backslash
+   directly before the NUL inside a string / character literal is "unclosed … literal")
   fuel             never produced for `lex` (see `Lemmas/LexLemmas`: every step consumes input)
 
 Not modelled: the values computed for literals (C11's model), line numbers (`add_line_numbers`, C18),
@@ -34,7 +32,7 @@ inductive Kind | ident | punct | str | chr | ppnum
   deriving DecidableEq, Repr
 
 inductive Err
-  | unclosedComment | unclosedString | unclosedChar | badHexEscape | invalidToken | overrun | fuel
+  | unclosedComment | unclosedString | unclosedChar | badHexEscape | invalidToken | fuel
   deriving DecidableEq, Repr
 
 /-- what `new_token` records that C19 needs: kind (TK_IDENT, TK_PUNCT, TK_STR, TK_NUM for a character
@@ -46,10 +44,10 @@ structure Tok where
   hasSpace : Bool
   deriving DecidableEq, Repr
 
-/-- `while (*p != '\n') p++;` — the rest starting AT the newline; `none`: ran past the NUL -/
-def skipLine : List Nat → Option (List Nat)
-  | [] => none
-  | c :: t => if c == 10 then some (c :: t) else skipLine t
+/-- `while (*p && *p != '\n') p++;` — the rest starting AT the newline, or nothing at the end of the text -/
+def skipLine : List Nat → List Nat
+  | [] => []
+  | c :: t => if c == 10 then c :: t else skipLine t
 
 /-- `strstr(p, "*/")` — the rest after the two characters; `none`: not found -/
 def findCommentEnd : List Nat → Option (List Nat)
@@ -86,7 +84,7 @@ def strEnd : List Nat → Except Err (List Nat × List Nat)
     else if c == 10 then .error .unclosedString
     else if c == 92 then
       match t with
-      | [] => .error .overrun
+      | [] => .error .unclosedString      -- `if (*p == '\\' && p[1]) p++;` does not skip; the next character is the NUL
       | d :: t' =>
         match strEnd t' with
         | .ok r => .ok (c :: d :: r.1, r.2)
@@ -127,7 +125,7 @@ def charEnd : List Nat → Except Err (List Nat × List Nat)
   | c :: t =>
     if c == 92 then
       match t with
-      | [] => .error .overrun
+      | [] => .error .unclosedChar        -- `if (*p == '\\' && p[1] == '\0') error_at(start, "unclosed char literal");`
       | d :: t' =>
         if d == 120 && !(headIs isXDigit t') then .error .badHexEscape
         else match findQuote t' with
@@ -175,9 +173,7 @@ def lexStep (s : List Nat) (bol sp : Bool) : Step :=
   | c :: t =>
     -- startswith(p, "//")
     if [47, 47].isPrefixOf (c :: t) then
-      match skipLine (t.drop 1) with
-      | none => .err .overrun
-      | some r => .skip r bol true
+      .skip (skipLine (t.drop 1)) bol true
     -- startswith(p, "/*")
     else if [47, 42].isPrefixOf (c :: t) then
       match findCommentEnd (t.drop 1) with
